@@ -40,6 +40,18 @@ func EmptyHash() Hash { return sha256.Sum256(nil) }
 type Tree struct {
 	Leaves []Hash
 	memo   map[[2]int64]Hash // (level, offset) -> hash of complete subtree
+	// A uniform tree has `un` identical leaves `uleaf`; it is never materialised, which allows
+	// sizes far beyond memory (index arithmetic above 2^32). Subtree hashes then depend on the
+	// level only and range hashes on the length only.
+	uniform bool
+	uleaf   Hash
+	un      int64
+	ulen    map[int64]Hash
+}
+
+// NewUniformTree returns a virtual tree of n identical leaves.
+func NewUniformTree(n int64, leaf Hash) *Tree {
+	return &Tree{memo: map[[2]int64]Hash{}, uniform: true, uleaf: leaf, un: n, ulen: map[int64]Hash{}}
 }
 
 // NewTree returns an empty tree.
@@ -59,13 +71,28 @@ func (t *Tree) Append(data []byte) { t.Leaves = append(t.Leaves, LeafHash(data))
 func (t *Tree) AppendLeaf(h Hash) { t.Leaves = append(t.Leaves, h) }
 
 // N is the number of leaves.
-func (t *Tree) N() int64 { return int64(len(t.Leaves)) }
+func (t *Tree) N() int64 {
+	if t.uniform {
+		return t.un
+	}
+	return int64(len(t.Leaves))
+}
+
+func (t *Tree) leaf(i int64) Hash {
+	if t.uniform {
+		return t.uleaf
+	}
+	return t.Leaves[i]
+}
 
 // Sub returns the hash of the complete subtree at (level, offset): the
 // leaves [offset<<level, (offset+1)<<level). It must lie inside the tree.
 func (t *Tree) Sub(level int, offset int64) Hash {
 	if level == 0 {
-		return t.Leaves[offset]
+		return t.leaf(offset)
+	}
+	if t.uniform {
+		offset = 0
 	}
 	k := [2]int64{int64(level), offset}
 	if h, ok := t.memo[k]; ok {
@@ -85,14 +112,23 @@ func largestPow2Below(n int64) int64 {
 func (t *Tree) MTHRange(lo, hi int64) Hash {
 	n := hi - lo
 	if n == 1 {
-		return t.Leaves[lo]
+		return t.leaf(lo)
 	}
 	// complete aligned subtree: use the memo
-	if n&(n-1) == 0 && lo%n == 0 {
+	if n&(n-1) == 0 && (lo%n == 0 || t.uniform) {
 		return t.Sub(bits.TrailingZeros64(uint64(n)), lo/n)
 	}
+	if t.uniform {
+		if h, ok := t.ulen[n]; ok {
+			return h
+		}
+	}
 	k := largestPow2Below(n)
-	return NodeHash(t.MTHRange(lo, lo+k), t.MTHRange(lo+k, hi))
+	h := NodeHash(t.MTHRange(lo, lo+k), t.MTHRange(lo+k, hi))
+	if t.uniform {
+		t.ulen[n] = h
+	}
+	return h
 }
 
 // MTH is the Merkle Tree Hash of the first n leaves.
